@@ -353,6 +353,9 @@ pub fn run(cli: Cli) -> ! {
         rep.finish();
     }
     let all = specs(cli.tier.thorough());
+    for s in [&all[0], &all[all.len() / 2]] {
+        assert_deterministic(&first_case(s), "C10");
+    }
     let distinct: Mutex<HashSet<String>> = Mutex::new(HashSet::new());
     let (accepted, reauth, issued) = (AtomicU64::new(0), AtomicU64::new(0), AtomicU64::new(0));
     par_for(all.len(), |i| {
